@@ -530,10 +530,10 @@ def load_findings():
 def check_property(prop_id, tier, specs, meta, extra_results=None, seed=0):
     """run all harness specs of a property; write evidence; print verdict lines; return exit code"""
     t0 = time.time()
-    work_root = os.path.join(VERIF, '.work', '%s_%s' % (prop_id, tier))
+    work_root = os.path.join(os.environ.get('VERIF_WORK_DIR', os.path.join(VERIF, '.work')), '%s_%s' % (prop_id, tier))
     shutil.rmtree(work_root, ignore_errors=True)
     os.makedirs(work_root)
-    replay_root = os.path.join(VERIF, 'replay', prop_id)
+    replay_root = os.path.join(os.environ.get('VERIF_REPLAY_DIR', os.path.join(VERIF, 'replay')), prop_id)
     os.makedirs(replay_root, exist_ok=True)
     findings = [f for f in load_findings() if f.get('property') == prop_id]
     known_by_harness = {}
@@ -604,8 +604,9 @@ def check_property(prop_id, tier, specs, meta, extra_results=None, seed=0):
         wall_s=round(time.time() - t0, 1),
         violations=len(violations),
     )
-    os.makedirs(os.path.join(VERIF, 'evidence'), exist_ok=True)
-    with open(os.path.join(VERIF, 'evidence', prop_id + '.json'), 'w') as f:
+    evdir = os.environ.get('VERIF_EVIDENCE_DIR', os.path.join(VERIF, 'evidence'))     # overridden only by bin/eval_seeds (scratch copies of /repo)
+    os.makedirs(evdir, exist_ok=True)
+    with open(os.path.join(evdir, prop_id + '.json'), 'w') as f:
         json.dump(ev, f, indent=1)
     if rc == 0:
         log('[%s] OK: %d/%d harnesses hold within their bounds (%.0fs)' % (prop_id, len(passed), len(results), time.time() - t0))
